@@ -421,3 +421,39 @@ SCENARIOS = [
     Scenario("C01.analysis.exposed_uses.visit_block", s_exposed_visit_block, F(EXP + ".visit_block")),
     Scenario("C01.analysis.exposed_uses", s_exposed_uses, F(EXP)),
 ]
+
+
+def s_constant_if_conditions(ctx):
+    """_compute_constant_if_conditions: an `if name:` is folded at script time only when `name` is a global that
+    is assigned NOWHERE in the function body; the recorded value is bool(globals[name])."""
+    I = Interp(ctx, contracts=CONTRACTS, models=models())
+    self = new_analyzer(I)
+    self.fields["_constant_if_condition"] = {}
+    fun = SObj(ast.FunctionDef, "fun", ref=z3.Const("fun", A.Obj), lazy=A._lazy)
+    ifn = SObj(ast.If, "ifnode", ref=z3.Const("ifn", A.Obj), lazy=A._lazy)
+    other = A.new_stmt(z3.Const("other", A.Obj), "other", kinds=[ast.Assign, ast.Return])
+    I.models[ast.walk] = lambda interp, node: [fun, other, ifn]
+    gval = [0, 1, "", "x", None][ctx.choose(5, "global value")]
+    globs = {"g": gval}
+    clo = I.closure_of(_mod().AstAnalyzer._compute_constant_if_conditions)
+    I.run_closure(clo, [self, fun, globs], {})
+    rec = self.fields["_constant_if_condition"]
+    body_defs = D.maydef_block(A.blk("body")(fun.ref))
+    if not rec:
+        ctx.cover("constant_if.not_folded")
+        return
+    ctx.cover("constant_if.folded")
+    ctx.check("C01.analysis.constant_if.only_if_nodes_are_recorded", list(rec.keys()) == [ifn] or all(k is ifn for k in rec), CL)
+    test = ifn.fields.get("test")
+    ok = isinstance(test, SObj) and I.class_of(test) is ast.Name
+    ctx.check("C01.analysis.constant_if.condition_is_a_plain_name", ok, CL)
+    if not ok:
+        return
+    name = A.IdOf(test.ref)
+    ctx.check("C01.analysis.constant_if.name_is_a_global", name == z3.StringVal("g"), CL)
+    ctx.check("C01.analysis.constant_if.name_assigned_nowhere_in_the_function", z3.Not(z3.IsMember(name, body_defs)),
+              "C01: 'reading the source as ordinary Python control flow' — a local variable that shadows a global must not be folded to the global's truth value")
+    ctx.check("C01.analysis.constant_if.value_is_truth_of_the_global", rec[ifn] is bool(gval), CL)
+
+
+SCENARIOS.append(Scenario("C01.analysis.constant_if_conditions", s_constant_if_conditions, F("AstAnalyzer._compute_constant_if_conditions")))
